@@ -781,7 +781,15 @@ func (st *state) applyDefaults(instancep reflect.Value, schema *Schema) (err err
 						if err := st.applyDefaults(lvalue, subschema); err != nil {
 							return err
 						}
-						instance.SetMapIndex(mapKey(instance, prop), lvalue.Elem())
+						// Insert the container only if it received a default: all the
+						// defaults below may belong to required properties, which are skipped.
+						filled := lvalue.Elem()
+						if filled.Kind() == reflect.Interface {
+							filled = filled.Elem()
+						}
+						if filled.Kind() != reflect.Map || filled.Len() > 0 {
+							instance.SetMapIndex(mapKey(instance, prop), lvalue.Elem())
+						}
 					}
 				}
 			case reflect.Struct:
